@@ -284,6 +284,18 @@ pub fn slice_b_run<S: Sch>(rec: &mut Rec) {
             if !d.accepted() {
                 fail(rec, S::NAME, "batch_check", what, &id, format!("honest batch proof not accepted: {}", d.short()));
             }
+            if what == "canonical-order" {
+                // the verifier holding only the commitments the query set refers to
+                let needed: Vec<&LCm<S>> = c.comms.iter().filter(|cm| b.qs.iter().any(|(l, _)| l == cm.label())).collect();
+                if needed.len() < c.comms.len() {
+                    rec.count_points(1);
+                    let d2 = check_batch::<S>(&keys, &needed, &b.qs, &b.evals, &b.proof, 0, rec.seed, 0);
+                    rec.class(d2.class());
+                    if !d2.accepted() {
+                        fail(rec, S::NAME, "batch_check", "only-needed-commitments", &id, format!("honest batch proof not accepted when the verifier is given only the {} commitments queried: {}", needed.len(), d2.short()));
+                    }
+                }
+            }
             rec.sample(&format!("{}-batch", S::NAME), format!("{} -> {}", id, d.short()));
         }
     }
